@@ -3,6 +3,8 @@
 package secretstore
 
 import (
+	datastore "github.com/ipfs/go-datastore"
+	dssync "github.com/ipfs/go-datastore/sync"
 	crand "crypto/rand"
 	"sync"
 	"fmt"
@@ -73,9 +75,12 @@ func TestVerifC11(t *testing.T) {
 	for it := 0; it < nHist; it++ {
 		nStores := 2 + rng.Intn(2)
 		stores := make([]*secretStore, nStores)
+		dss := make([]datastore.Batching, nStores)
 		for i := range stores {
-			stores[i], _ = newInMemSecretStore(nil)
+			dss[i] = dssync.MutexWrap(datastore.NewMapDatastore())
+			stores[i], _ = newSecretStore(dss[i], nil)
 		}
+		restarts := 0
 		type exp struct{ a, p []byte }
 		lastExport := map[int]exp{}
 		cn := &c11canon{seen: map[string]int{}}
@@ -110,6 +115,18 @@ func TestVerifC11(t *testing.T) {
 				sp = script[j]
 			}
 			i := sp.i
+			// now and then the store is closed and opened again on the same datastore: whatever it keeps
+			// in memory is gone, what it answers must not change (the model has no such operation: a
+			// restart is invisible)
+			if rng.Intn(4) == 0 {
+				_ = stores[i].Close()
+				ns, err := newSecretStore(dss[i], nil)
+				if err != nil {
+					t.Fatal(err)
+				}
+				stores[i] = ns
+				restarts++
+			}
 			s := stores[i]
 			switch x := sp.x; {
 			case x < 1:
@@ -275,7 +292,10 @@ func TestVerifC11(t *testing.T) {
 			}
 		}
 		coq := fmt.Sprintf("CKeys %d %s %s", nStores, vharness.List(ops), vharness.List(obs))
-		out.Emit(vharness.Case{Kind: "history", Coq: coq, Key: coq, Nontrivial: nontrivial, OracleOK: ok, Note: note, Sig: sig})
+		if note != "" && restarts > 0 {
+			note += fmt.Sprintf(" (the stores were reopened on their datastores %d times during the history)", restarts)
+		}
+		out.Emit(vharness.Case{Kind: "history", Coq: coq, Key: coq, Nontrivial: nontrivial, OracleOK: ok, Note: note, Sig: sig, Replay: map[string]any{"ops": ops, "restarts": restarts}})
 	}
 	// ---- concurrent first use: several goroutines make the first use of the keys of a FRESH store at
 	// the same moment (a service starts several of them); every one of them must be handed the keys
